@@ -179,6 +179,41 @@ pub fn gen_case(src: &mut Src, _i: usize) -> Case {
     case
 }
 
+/// long soft-wrapped lines on tiny screens with tiny limits, so that trim points fall
+/// inside logical lines, mixed with scroll-downs at the top row and alt excursions
+pub fn gen_wrapped(src: &mut Src, _i: usize) -> Case {
+    let cols = src.range(2, 8);
+    let rows = src.range(1, 4);
+    let limit = *src.pick(&[0usize, 0, 1, 2, 3, 5, 9, 10, 11]);
+    let mut s = String::new();
+    let n = src.range(2, 14);
+    for k in 0..n {
+        match src.below(12) {
+            0 => s.push_str(*src.pick(&["\x1b[H\x1bM", "\x1b[H\x1b[L", "\x1b[T", "\x1b[H\x1b[2L", "\x1b[2T"])),
+            1 => s.push_str(*src.pick(&["\x1b[?1049h", "\x1b[?1047h", "\x1b[?1049l", "\x1b[?47l"])),
+            2 => s.push_str(*src.pick(&["\x1b[H\x1b[M", "\x1b[S", "\x1b[3S", "\n\n"])),
+            3 => s.push_str(*src.pick(&["\x1b[1;2r", "\x1b[r", "\x1b[41m", "\x1b[m", "\x1b[K", "\x1b[1K"])),
+            _ => {
+                let len = match src.below(4) {
+                    0 => cols * src.range(1, 4),
+                    1 => cols * src.range(1, 4) + 1,
+                    _ => src.range(1, cols * 5),
+                };
+                for j in 0..len {
+                    s.push((b'a' + ((k * 3 + j) % 26) as u8) as char);
+                }
+                if src.chance(3, 4) {
+                    s.push_str("\r\n");
+                }
+            }
+        }
+    }
+    let mut case = Case::new(cols, rows, Some(limit));
+    case.calls = chunk(src, &s);
+    case.calls.push(Call::FeedStr(CLOSING.to_string()));
+    case
+}
+
 /// enumerated: the scroll-off paths named in the property x every limit x chunk sizes
 fn enum_paths() -> Vec<Case> {
     let mut v = vec![];
@@ -214,7 +249,8 @@ pub fn run(env: &Env) -> PropRun {
     let mut parts = vec![];
     let ep = enum_paths();
     parts.push(run_part(env, "enum-paths", ep.len(), true, "3 sizes x 8 limits x 7 session bodies (LF flood, long wrapped line, DL at the top row, top-anchored partial region, 1049 excursion with garbage, SU incl. 65535, coloured lines) x chunk sizes {1,7,whole}", &|i| ep.get(i).cloned(), &j));
-    parts.push(random_part(env, "random-sessions", env.tier.scale(80_000, 30), &gen_case, &j));
+    parts.push(random_part(env, "wrapped-lines", env.tier.scale(60_000, 30), &gen_wrapped, &j));
+    parts.push(random_part(env, "random-sessions", env.tier.scale(60_000, 30), &gen_case, &j));
     PropRun {
         parts,
         meta: EvidenceMeta {
